@@ -1086,7 +1086,7 @@ func transactionNodeToEventTransaction(tr *transaction.Transaction, blockHash st
 func (b *Block) ApplyBlockStateChange(bsc *StateChange, c Chainer) error {
 	b.stateMutex.Lock()
 	defer b.stateMutex.Unlock()
-	if b.stateStatus >= StateSuccessful {
+	if b.IsStateComputed() {
 		// already synced and applied by another goroutine
 		return nil
 	}
